@@ -241,6 +241,7 @@ func main() {
 			e.Missing("filterInRangeConds", "List.FilterInRange not found")
 		} else {
 			e.Strs("filterInRangeConds", conds(f, fd), "conditions under which FilterInRange keeps a fraction")
+			e.Strs("filterInRangeStmts", stmts(f, fd), "statements of List.FilterInRange (the result list must be a fresh one: docsStream reuses its fraction list for every batch)")
 		}
 		if f, err := r.Load("fracmanager/searcher.go"); err != nil {
 			e.Missing("fracmanager/searcher.go", err)
@@ -272,6 +273,21 @@ func main() {
 				return true
 			})
 			e.Strs("groupIDsFilter", fs, "FilterInRange / Contains calls in groupIDsByFraction, source order")
+			// every statement of groupIDsByFraction that mentions the fraction lists
+			var lw []string
+			ast.Inspect(fd.Body, func(n ast.Node) bool {
+				switch x := n.(type) {
+				case *ast.AssignStmt:
+					t := f.Render(x)
+					if strings.Contains(t, "fracsOut") || strings.Contains(t, "fracsIn") {
+						lw = append(lw, t)
+					}
+				case *ast.ReturnStmt:
+					lw = append(lw, f.Render(x))
+				}
+				return true
+			})
+			e.Strs("groupIDsListWrites", lw, "assignments that mention fracsIn/fracsOut and the return of groupIDsByFraction")
 		}
 	}, "frac/info.go", "seq/mids_distribution.go", "seq/seq.go", "util/bitmask.go", "frac/active.go", "frac/sealed.go",
 		"frac/active_sealer.go", "fracmanager/list.go", "fracmanager/searcher.go", "fracmanager/fetcher.go")
